@@ -22,10 +22,11 @@ static void gen_matmul_all(Draw &d, Case &c) {
   c.tags = {mixed ? "mixed-magnitudes" : "one-magnitude"};
   c.nontrivial = true;
 }
-static void check_product(const M &A, const M &B, const char *what) {
+// which: 0 the dispatcher, 1 / 2 the two public kernels it dispatches to (both declared in matrix.h, callable for every shape)
+static void check_product(const M &A, const M &B, const char *what, int which = 0) {
   matrix *a = to_lib(A), *b = to_lib(B), *r;
   NewMatrix(&r, A.r, B.c);
-  MatrixDotProduct(a, b, r);
+  if (which == 1) MatrixDotProduct_(a, b, r); else if (which == 2) MatrixDotProduct_LOOP_UNROLLING(a, b, r); else MatrixDotProduct(a, b, r);
   VF_CHECK((int)r->row == A.r && (int)r->col == B.c, "%s: output shape changed to %s", what, dims(r).c_str());
   M C, Cabs; mul_abs(A, B, C, Cabs);
   for (int i = 0; i < A.r; i++) for (int j = 0; j < B.c; j++) {
@@ -47,6 +48,7 @@ static void pred_matmul_all(const Case &c) {
     // thorough tier: all 18^3 = 5832 shapes
     if (!full && !((m <= 2 || m == 5 || m == MAXD) && (n <= 2 || n == 4 || n == MAXD)) && ((m * 31 + k * 17 + n) % 7 != 0)) continue;
     check_product(block(A, m, k), block(B, k, n), "MatrixDotProduct");
+    if ((m + k + n) % 3 == 0) { check_product(block(A, m, k), block(B, k, n), "MatrixDotProduct_", 1); check_product(block(A, m, k), block(B, k, n), "MatrixDotProduct_LOOP_UNROLLING", 2); }
   }
 }
 
